@@ -20,6 +20,8 @@ from harness import common
 THEOREMS = [
     'Src.w1_sum_one', 'Src.point_moment', 'Src.trilinear_partition',
     'Src.cell_weights_sum_x', 'Src.interval_union', 'Src.segments_tile_1d', 'Src.tiling_3d',
+    'Src.lenOf_eq', 'Src.dir_breaks', 'Src.lenOf_sum', 'Src.segVector_sums',
+    'Src.dipole_moment',
     'Src.rotation_unit', 'Src.square_loop_closed_planar_perp',
     'Src.square_loop_area', 'Src.square_loop_right_handed',
     'Src.point_to_dipole_span', 'Src.source_field_scaling',
@@ -389,7 +391,7 @@ def suite_electrodes(ctx):
 
 
 def run(ctx):
-    ctx.lean('Emg3dVerif.Props.C10', THEOREMS)
+    ctx.lean('Emg3dVerif.Props.C10Dipole', THEOREMS)   # imports Props.C10
     ctx.assumptions += [
         'sqrt / trigonometric functions (cosdg, sindg, angle) are routed or '
         'compared in floating point',
